@@ -47,7 +47,7 @@ def gen_case(rng):
             open_.append(eid)
         else:
             e = open_.pop(rng.randrange(len(open_)))
-            ops.append("exit e=%d" % e)
+            ops.append("exit e=%d%s" % (e, " err=1" if rng.random() < 0.25 else ""))   # a traced error must not change admission/accounting
         if rng.random() < 0.15:
             ops.append("node res=__inbound__")
     return ops
